@@ -72,6 +72,11 @@ def decodeMsg (j : Json) : R Msg := do
   | "stop_touch" => return .stopTouch
   | m => throw s!"unknown message {m}"
 
+def decodeEv (j : Json) : R Ev := do
+  match (← strF j "m") with
+  | "resume" => return .resume
+  | _ => return .msg (← decodeMsg j)
+
 def jSVal : SVal → Json
   | .str s => Json.str s
   | .bool b => Json.bool b
@@ -125,7 +130,7 @@ def handleWorld (j : Json) : R Json := do
     let lt ← optF asFloat j "look_to_time"
     let events ← asList (fun e => do
       match (← asArr e) with
-      | [t, m] => return ((← asFloat t), (← decodeMsg m))
+      | [t, m] => return ((← asFloat t), (← decodeEv m))
       | _ => throw "event") (← fld j "events")
     let tape ← asList (fun e => do
       match (← asArr e) with
